@@ -2,6 +2,7 @@
 //!   fvharness corr   <Cxx> <seed> <n>   transcript of inputs and implementation outputs for the Lean driver
 //!   fvharness search <Cxx> <seed> <n>   evaluates the property itself on the real code with an independent oracle
 mod util;
+mod c04;
 mod c05;
 mod c17;
 mod c18;
@@ -19,6 +20,8 @@ fn main() {
     let extra: Vec<String> = args[5..].to_vec();
     let _ = &extra;
     match (mode, prop) {
+        ("corr", "C04") => c04::corr(seed, n),
+        ("search", "C04") => c04::search(seed, n),
         ("corr", "C05") => c05::corr(seed, n),
         ("search", "C05") => c05::search(seed, n),
         ("corr", "C17") => c17::corr(seed, n),
